@@ -35,6 +35,12 @@ func (x *Exec) evalCall(call *ast.CallExpr, st *State) []*Value {
 			if sel.Kind() == types.MethodVal {
 				fn := sel.Obj().(*types.Func)
 				recv := x.evalReceiver(f, sel, fn, st)
+				if _, isIface := types.Unalias(x.typeOf(f.X)).Underlying().(*types.Interface); isIface && x.c != nil && x.c.Opts["nil_iface_calls"] != "" && recv != nil {
+					// calling a method on a nil interface value panics (checked on request: opt nil_iface_calls)
+					c := Not(Eq(recv.term(), IntLit(0)))
+					x.oblige(st, "nil", "ifacecall:"+f.Sel.Name, c, call)
+					x.assume(st, c)
+				}
 				x.staticRecv = x.typeOf(f.X)
 				return x.callFunc(fn, recv, call, st)
 			}
@@ -60,6 +66,23 @@ func (x *Exec) evalCall(call *ast.CallExpr, st *State) []*Value {
 			panic(engErr("call through function-typed field %s not supported at %s", f.Sel.Name, x.pos(call)))
 		}
 		if fn, ok := info.Uses[f.Sel].(*types.Func); ok {
+			if k := funcKey(fn); (k == "sort.SliceStable" || k == "sort.Slice") && len(call.Args) == 2 {
+				if sl, isSlice := types.Unalias(x.typeOf(call.Args[0])).Underlying().(*types.Slice); isSlice {
+					if _, isLit := call.Args[1].(*ast.FuncLit); isLit {
+						// sorting with a comparison closure: the elements of the slice are permuted; modelled
+						// as arbitrary new element values (a sound over-approximation for safety obligations;
+						// the closure itself is assumed not to panic and to have no effects: A-SORT-CLOSURE)
+						v := x.eval(call.Args[0], st)
+						x.note("A-SORT-CLOSURE")
+						if x.isStruct(sl.Elem()) {
+							x.havocStructElems(st, SArr(v.Tm), sl.Elem(), nil, "")
+						} else {
+							(&specLoc{ptr: &Pointer{Base: SArr(v.Tm)}, t: types.NewArray(sl.Elem(), -1)}).havoc(x, st)
+						}
+						return nil
+					}
+				}
+			}
 			return x.callFunc(fn, nil, call, st)
 		}
 	case *ast.IndexExpr, *ast.IndexListExpr:
